@@ -262,6 +262,7 @@ func c21Client(arg string) int {
 // ---- the scripted server side ----
 
 type c21Srv struct {
+	kicked bool // focus "recreate": the session has been thrown out
 	mu       sync.Mutex
 	r        *rand.Rand
 	reg      *gen.Registry
@@ -352,6 +353,72 @@ func (s *c21Srv) handle(srv *refpeer.Server, sc *refpeer.SrvConn, m *refpeer.Msg
 			r.SetHeader(h)
 		}
 		return out
+	}
+	if s.focus == "recreate" {
+		// everything is answered sanely so that the client gets through its reconnect actions: one publish request
+		// is answered BadSessionIDInvalid, the session cannot be restored, subscriptions cannot be transferred, so
+		// they are recreated; the answers to the requests of that recreation are generated
+		n := s.counts[name]
+		switch rq := m.Service.(type) {
+		case *ua.CreateSubscriptionRequest:
+			if s.kicked {
+				break // generated below
+			}
+			sc.Reply(m, &ua.CreateSubscriptionResponse{ResponseHeader: refpeer.RespHeader(rq, ua.StatusOK), SubscriptionID: uint32(n), RevisedPublishingInterval: 10, RevisedLifetimeCount: 100, RevisedMaxKeepAliveCount: 10})
+			return
+		case *ua.CreateMonitoredItemsRequest:
+			if s.kicked {
+				if s.r.Intn(2) == 0 {
+					x = s.r.Intn(55) // expected type, Good, generated content
+					break
+				}
+				// all results Good, but one fewer, as many, one or two more than items
+				res := make([]*ua.MonitoredItemCreateResult, max(0, len(rq.ItemsToCreate)+s.r.Intn(4)-1))
+				for i := range res {
+					res[i] = &ua.MonitoredItemCreateResult{StatusCode: ua.StatusOK, MonitoredItemID: uint32(i + 1), RevisedSamplingInterval: 10, RevisedQueueSize: 1, FilterResult: ua.NewExtensionObject(nil)}
+				}
+				s.last = append(s.last, fmt.Sprintf("%s -> %d Good results for %d items (recreation)", name, len(res), len(rq.ItemsToCreate)))
+				sc.Reply(m, &ua.CreateMonitoredItemsResponse{ResponseHeader: refpeer.RespHeader(rq, ua.StatusOK), Results: res})
+				return
+			}
+			res := make([]*ua.MonitoredItemCreateResult, len(rq.ItemsToCreate))
+			for i := range res {
+				res[i] = &ua.MonitoredItemCreateResult{StatusCode: ua.StatusOK, MonitoredItemID: uint32(i + 1), RevisedSamplingInterval: 10, RevisedQueueSize: 1, FilterResult: ua.NewExtensionObject(nil)}
+			}
+			sc.Reply(m, &ua.CreateMonitoredItemsResponse{ResponseHeader: refpeer.RespHeader(rq, ua.StatusOK), Results: res})
+			return
+		case *ua.PublishRequest:
+			if n == 3 && !s.kicked {
+				s.kicked = true
+				srv.ForgetSessions()
+				sc.Fault(m, ua.StatusBadSessionIDInvalid)
+				return
+			}
+			if s.kicked {
+				return // no answer: the publish loop just waits
+			}
+			sc.Reply(m, &ua.PublishResponse{ResponseHeader: refpeer.RespHeader(rq, ua.StatusOK), SubscriptionID: 1, NotificationMessage: &ua.NotificationMessage{SequenceNumber: uint32(n), PublishTime: time.Now(), NotificationData: []*ua.ExtensionObject{}},
+				AvailableSequenceNumbers: []uint32{}, Results: make([]ua.StatusCode, len(rq.SubscriptionAcknowledgements)), DiagnosticInfos: []*ua.DiagnosticInfo{}})
+			return
+		case *ua.TransferSubscriptionsRequest:
+			sc.Fault(m, ua.StatusBadServiceUnsupported)
+			return
+		case *ua.DeleteSubscriptionsRequest:
+			sc.Reply(m, &ua.DeleteSubscriptionsResponse{ResponseHeader: refpeer.RespHeader(rq, ua.StatusOK), Results: make([]ua.StatusCode, len(rq.SubscriptionIDs)), DiagnosticInfos: []*ua.DiagnosticInfo{}})
+			return
+		default:
+			if srv.Default(sc, m) {
+				return
+			}
+			if want != nil {
+				if v := mk(want, ua.StatusOK, false); v != nil {
+					if body, err := refpeer.EncodeBody(v); err == nil {
+						sc.SendBody("MSG", m.ReqID, body, refpeer.SendOpts{})
+					}
+				}
+				return
+			}
+		}
 	}
 	if s.focus == "publish" {
 		switch rq := m.Service.(type) {
@@ -466,6 +533,10 @@ func c21One(c *fw.Ctx, cs c21Case) {
 		rounds = 2
 	}
 	arg := c21Arg{Endpoint: srv.Endpoint(), Ops: c21Ops, Rounds: rounds, Hostile: cs.Hostile, Reconnect: cs.Reconnect}
+	if cs.Focus == "recreate" {
+		arg.Ops = []string{"Subscribe", "Sub.Monitor", "PublishLoop", "PublishLoop", "PublishLoop", "PublishLoop", "PublishLoop", "PublishLoop", "Read", "PublishLoop", "PublishLoop", "Sub.Cancel"}
+		arg.Rounds, arg.Reconnect = 1, true
+	}
 	if cs.Focus == "publish" {
 		arg.Ops = []string{"Subscribe", "Sub.Monitor", "PublishLoop", "PublishLoop", "Read", "PublishLoop", "Sub.ModifyMonitoredItems", "PublishLoop", "Sub.Unmonitor", "PublishLoop", "Sub.Cancel", "Subscribe", "PublishLoop", "Monitor.Subscribe", "PublishLoop", "Monitor.AddNodes", "PublishLoop", "Monitor.RemoveNodes", "Monitor.Unsubscribe"}
 		arg.Rounds = 2
@@ -576,6 +647,9 @@ func c21Run(c *fw.Ctx) error {
 		if i%3 == 1 {
 			cs.Hostile, cs.Focus = false, "publish"
 		}
+		if i%6 == 5 {
+			cs.Hostile, cs.Reconnect, cs.Focus = false, true, "recreate"
+		}
 		c.Journal(i, cs)
 		c21One(c, cs)
 		c.Done(i)
@@ -589,7 +663,7 @@ func init() {
 	fw.Register("C21", fw.Spec{
 		Plan: func(tier string) fw.Plan {
 			p := fw.Plan{Batches: 8, TimeoutS: 1200, MinNontrivial: 400, Level: "exploration",
-				Rule:        "the real client in a child process runs through 47 operations once per run (twice in the thorough tier) (Read, Write, Browse, BrowseNext, Call, Register/UnregisterNodes, FindServers*, GetEndpoints, namespace helpers, the four HistoryRead calls, all Node helpers, Subscribe / Monitor / Unmonitor / ModifyMonitoredItems / SetMonitoringMode / SetTriggering / ModifySubscription / Stats / the background publish loop / Cancel, the monitor package); the scripted server answers every request with a generated response that encodes and decodes: the expected type with generated field values and result arrays set to null / empty / 1-3 / generated lengths under Good or bad service results, another registered response type, or a fault; in a quarter of the runs the connect sequence gets such answers too; a third of the runs concentrate on the background publish loop (everything else answered sanely, generated PublishResponses); half of the runs use auto-reconnect (20 ms), so that bad service results drive the client through its reconnect actions (new channel, restore / recreate session, transfer / republish / recreate subscriptions) against generated answers; oracle: no panic in the calling goroutine (recovered and reported with the frame), the child does not die (background goroutines), it finishes; distinct = (run, operation)",
+				Rule:        "the real client in a child process runs through 47 operations once per run (twice in the thorough tier) (Read, Write, Browse, BrowseNext, Call, Register/UnregisterNodes, FindServers*, GetEndpoints, namespace helpers, the four HistoryRead calls, all Node helpers, Subscribe / Monitor / Unmonitor / ModifyMonitoredItems / SetMonitoringMode / SetTriggering / ModifySubscription / Stats / the background publish loop / Cancel, the monitor package); the scripted server answers every request with a generated response that encodes and decodes: the expected type with generated field values and result arrays set to null / empty / 1-3 / generated lengths under Good or bad service results, another registered response type, or a fault; in a quarter of the runs the connect sequence gets such answers too; a sixth of the runs lead the client through session loss into the recreation of its subscriptions (sane answers up to there, generated answers to the recreation requests); a third of the runs concentrate on the background publish loop (everything else answered sanely, generated PublishResponses); half of the runs use auto-reconnect (20 ms), so that bad service results drive the client through its reconnect actions (new channel, restore / recreate session, transfer / republish / recreate subscriptions) against generated answers; oracle: no panic in the calling goroutine (recovered and reported with the frame), the child does not die (background goroutines), it finishes; distinct = (run, operation)",
 				Assumptions: []string{"responses come from the typed generator of C01, so they are values a server can encode"}}
 			if tier == "thorough" {
 				p.Batches, p.TimeoutS, p.MinNontrivial = 16, 3400, 50000
